@@ -13,7 +13,7 @@ func c18Setup() c18World {
 	content := []byte(vxStringN(n))
 	w := c18World{content: content}
 	w.src = vxFSFile("src", content)
-	switch vxPick(9) {
+	switch vxPick(10) {
 	case 0:
 		w.dst = vxFSMissing("dst")
 	case 1:
@@ -38,6 +38,10 @@ func c18Setup() c18World {
 	case 8:
 		w.dst = w.src // literally the same name
 		w.alias = true
+	case 9:
+		w.dst = vxFSAlias("xlnk", "src", 3) // a symbolic link on the other file system pointing at the source
+		w.alias = true
+		vxReach("alias across file systems")
 	}
 	return w
 }
